@@ -22,6 +22,8 @@ ASSUMPTIONS = ["libm exp/sin/cos/sqrt are the real functions up to rounding"]
 EXTRA_TARGETS = ()
 
 
+PROP_MODULES = ['C01', 'C01Gen']
+
 def record(rng, n, dt):
     k = rng.choice(['hat', 'noise', 'sine', 'step', 'spike', 'int', 'big', 'tiny', 'resonant'])
     if k == 'hat':
